@@ -378,6 +378,317 @@ fn minimise_seq(pc: &seq::PropCfg, mut case: Case, sig: &str) -> Case {
     case
 }
 
+/// C11's quantifier names an exhaustive core: all 512 permission values x all well-formed single
+/// clauses of the grammar x {file, dir, link}. Every 128th run takes the next slice of that product
+/// (a second, seeded clause is appended to half of the expressions) and runs each element as a
+/// little history judged by the model; the thorough tier walks the whole product several times.
+fn c11_sweep(id: &str, seed: u64, idx: u64, stats: &mut Stats, known: &dyn Fn(&Violation) -> bool) -> Option<Finding> {
+    use crate::ops::{ChmodCall, Op};
+    let pc = props::seq_cfg(id)?;
+    let mut rng = Rng::new(mix(&[seed, hash_str("C11-sweep"), idx]));
+    let knobs = pick_knobs(&mut rng);
+    let mut env = crate::refpath::Env::new();
+    env.insert("HOME".into(), "/h".into());
+    let clause = |c: u64| -> String {
+        let t = ["d", "f", "a"][(c % 3) as usize];
+        let c = c / 3;
+        let who_bits = 1 + (c % 15);
+        let c = c / 15;
+        let op = ["-", "+", "="][(c % 3) as usize];
+        let c = c / 3;
+        let perm_bits = 1 + (c % 7);
+        let mut who = String::new();
+        for (i, ch) in ['u', 'g', 'o', 'a'].iter().enumerate() {
+            if who_bits & (1 << i) != 0 {
+                who.push(*ch);
+            }
+        }
+        let mut perm = String::new();
+        for (i, ch) in ['r', 'w', 'x'].iter().enumerate() {
+            if perm_bits & (1 << i) != 0 {
+                perm.push(*ch);
+            }
+        }
+        format!("{}:{}{}{}", t, who, op, perm)
+    };
+    const CLAUSES: u64 = 3 * 15 * 3 * 7;
+    const TOTAL: u64 = 512 * CLAUSES;
+    const SLICE: u64 = 32;
+    // a fixed odd stride walks the product in an order that mixes modes and clauses
+    let start = (idx / 128).wrapping_mul(SLICE);
+    for j in 0..SLICE {
+        let e = (start + j).wrapping_mul(0x9E37_79B1) % TOTAL;
+        let mode = (e % 512) as u32;
+        let mut expr = clause(e / 512);
+        if rng.chance(1, 2) {
+            expr = format!("{},{}", expr, clause(rng.below(CLAUSES as usize) as u64));
+            stats.bump("sweep.double_clause_expressions");
+        } else {
+            stats.bump("sweep.single_clause_expressions");
+        }
+        let sym = |p: &str, extra: Option<ChmodCall>| {
+            let mut calls = vec![ChmodCall::Sym(expr.clone())];
+            if let Some(x) = extra {
+                calls.push(x);
+            }
+            Op::ChmodB { p: p.into(), calls }
+        };
+        let ops = vec![
+            Op::MkfileM { p: "/f".into(), mode },
+            Op::MkdirM { p: "/t".into(), mode },
+            Op::MkfileM { p: "/t/g".into(), mode: mode ^ 0o777 },
+            Op::Symlink { l: "/l".into(), t: "/f".into() },
+            sym("/f", None),
+            Op::Mode { p: "/f".into() },
+            Op::IsExec { p: "/f".into() },
+            Op::IsReadonly { p: "/f".into() },
+            sym("/t", if rng.chance(1, 2) { Some(ChmodCall::NoRecurse) } else { None }),
+            Op::Mode { p: "/t".into() },
+            Op::Mode { p: "/t/g".into() },
+            Op::IsExec { p: "/t".into() },
+            sym("/l", if rng.chance(1, 2) { Some(ChmodCall::Follow) } else { None }),
+            Op::Mode { p: "/l".into() },
+            Op::Mode { p: "/f".into() },
+        ];
+        let out = seq::run_seq(&pc, &knobs, &env, Source::Replay(&ops), stats, known);
+        stats.bump("sweep.mode_x_clause_elements");
+        stats.distinct_cases.insert(out.log_hash);
+        if let Some(v) = out.violations.into_iter().next() {
+            let case = Case {
+                format: 1,
+                property: id.into(),
+                world: "SEQ".into(),
+                seed,
+                run: idx,
+                knobs: knobs.clone(),
+                env: env.clone(),
+                ops: out.ops,
+                expect: Some(ExpectSig { sig: v.sig.clone(), step: v.step }),
+                log_hash: hex(out.log_hash),
+                what: v.detail.clone(),
+            };
+            let case = minimise_seq(&pc, case, &v.sig);
+            let mut v = v;
+            v.detail = case.what.clone();
+            return Some(Finding { violation: v, case: serde_json::to_value(&case).unwrap() });
+        }
+    }
+    None
+}
+
+/// k-th string over `alpha` in length-then-lexicographic order (k = 0 is the first 1-character string)
+fn nth_string(alpha: &[char], mut k: u64) -> String {
+    let n = alpha.len() as u64;
+    let mut len = 1;
+    let mut block = n;
+    while k >= block {
+        k -= block;
+        len += 1;
+        block *= n;
+    }
+    let mut out = vec![];
+    for _ in 0..len {
+        out.push(alpha[(k % n) as usize]);
+        k /= n;
+    }
+    out.iter().rev().collect()
+}
+
+fn strings_up_to(alpha: &[char], max_len: u32) -> u64 {
+    let n = alpha.len() as u64;
+    (1..=max_len).map(|l| n.pow(l)).sum()
+}
+
+fn run_little_history(
+    id: &str, pc: &seq::PropCfg, knobs: &crate::hooks::Knobs, env: &crate::refpath::Env, ops: &[crate::ops::Op], seed: u64, idx: u64, stats: &mut Stats,
+    known: &dyn Fn(&Violation) -> bool,
+) -> Option<Finding> {
+    let out = seq::run_seq(pc, knobs, env, Source::Replay(ops), stats, known);
+    stats.distinct_cases.insert(out.log_hash);
+    let v = out.violations.into_iter().next()?;
+    let case = Case {
+        format: 1,
+        property: id.into(),
+        world: "SEQ".into(),
+        seed,
+        run: idx,
+        knobs: knobs.clone(),
+        env: env.clone(),
+        ops: out.ops,
+        expect: Some(ExpectSig { sig: v.sig.clone(), step: v.step }),
+        log_hash: hex(out.log_hash),
+        what: v.detail.clone(),
+    };
+    let case = minimise_seq(pc, case, &v.sig);
+    let mut v = v;
+    v.detail = case.what.clone();
+    Some(Finding { violation: v, case: serde_json::to_value(&case).unwrap() })
+}
+
+/// C12's quantifier: "exhaustively for short lengths ... fed to every public function and method".
+/// Every 128th run takes the next string of the enumeration of all strings up to length 3
+/// over the adversarial alphabet and feeds each to every path-taking method (every argument
+/// position) in the middle of a small ordinary history; the thorough tier walks the whole enumeration several times.
+fn c12_sweep(id: &str, seed: u64, idx: u64, stats: &mut Stats, known: &dyn Fn(&Violation) -> bool) -> Option<Finding> {
+    use crate::ops::{Bytes, ChmodCall, ChownCall, CopyCall, EntOpts, Op};
+    let pc = props::seq_cfg(id)?;
+    let mut rng = Rng::new(mix(&[seed, hash_str("C12-sweep"), idx]));
+    let knobs = pick_knobs(&mut rng);
+    let mut env = crate::refpath::Env::new();
+    env.insert("HOME".into(), "/d".into());
+    env.insert("a".into(), "v".into());
+    let alpha = ['/', '.', '~', '$', ':', '{', 'a', '\u{e9}', '\u{20ac}', '\u{1f600}', '\n', ' '];
+    let total = strings_up_to(&alpha, 3);
+    for j in 0..1u64 {
+        let k = ((idx / 128) + j) % total;
+        let s = nth_string(&alpha, k);
+        let x = "/d/f".to_string();
+        let d = Bytes(b"x".to_vec());
+        let mut calls: Vec<Op> = vec![
+            Op::Abs { p: s.clone() },
+            Op::AllDirs { p: s.clone() },
+            Op::AllFiles { p: s.clone() },
+            Op::AllPaths { p: s.clone() },
+            Op::Paths { p: s.clone() },
+            Op::Dirs { p: s.clone() },
+            Op::Files { p: s.clone() },
+            Op::AppendAll { p: s.clone(), d: d.clone() },
+            Op::AppendLine { p: s.clone(), s: s.clone() },
+            Op::AppendLines { p: s.clone(), ls: vec![s.clone(), String::new()] },
+            Op::Chmod { p: s.clone(), mode: 0o750 },
+            Op::ChmodB { p: s.clone(), calls: vec![ChmodCall::Sym(s.clone())] },
+            Op::ChmodB { p: x.clone(), calls: vec![ChmodCall::Sym(s.clone())] },
+            Op::ChmodB { p: s.clone(), calls: vec![ChmodCall::Follow, ChmodCall::Recurse, ChmodCall::All(0o700)] },
+            Op::Chown { p: s.clone(), uid: 5, gid: 7 },
+            Op::ChownB { p: s.clone(), calls: vec![ChownCall::Owner(5, 7), ChownCall::Follow, ChownCall::Recurse(true)] },
+            Op::ConfigDir { name: s.clone() },
+            Op::Copy { s: s.clone(), d: x.clone() },
+            Op::Copy { s: x.clone(), d: s.clone() },
+            Op::Copy { s: s.clone(), d: s.clone() },
+            Op::CopyB { s: "/d".into(), d: s.clone(), calls: vec![CopyCall::Follow(true), CopyCall::ChmodAll(0o700)] },
+            Op::CopyB { s: s.clone(), d: "/d/n".into(), calls: vec![CopyCall::Follow(true)] },
+            Op::SetCwd { p: s.clone() },
+            Op::Entries { p: s.clone(), o: EntOpts { follow: true, contents_first: true, sort_by_name: true, ..EntOpts::default() } },
+            Op::Entries { p: s.clone(), o: EntOpts::default() },
+            Op::Entry { p: s.clone() },
+            Op::Exists { p: s.clone() },
+            Op::IsDir { p: s.clone() },
+            Op::IsFile { p: s.clone() },
+            Op::IsExec { p: s.clone() },
+            Op::IsReadonly { p: s.clone() },
+            Op::IsSymlink { p: s.clone() },
+            Op::IsSymlinkDir { p: s.clone() },
+            Op::IsSymlinkFile { p: s.clone() },
+            Op::Gid { p: s.clone() },
+            Op::Uid { p: s.clone() },
+            Op::Owner { p: s.clone() },
+            Op::Mode { p: s.clone() },
+            Op::MkdirM { p: s.clone(), mode: 0o700 },
+            Op::MkdirP { p: s.clone() },
+            Op::Mkfile { p: s.clone() },
+            Op::MkfileM { p: s.clone(), mode: 0o600 },
+            Op::MoveP { s: s.clone(), d: x.clone() },
+            Op::MoveP { s: x.clone(), d: s.clone() },
+            Op::MoveP { s: "/d".into(), d: s.clone() },
+            Op::ReadAll { p: s.clone() },
+            Op::ReadLines { p: s.clone() },
+            Op::Readlink { p: s.clone() },
+            Op::ReadlinkAbs { p: s.clone() },
+            Op::Remove { p: s.clone() },
+            Op::RemoveAll { p: s.clone() },
+            Op::Symlink { l: s.clone(), t: x.clone() },
+            Op::Symlink { l: "/d/k".into(), t: s.clone() },
+            Op::Symlink { l: s.clone(), t: s.clone() },
+            Op::WriteAll { p: s.clone(), d: d.clone() },
+            Op::WriteLines { p: s.clone(), ls: vec![s.clone()] },
+            Op::OpenRead { h: 0, p: s.clone() },
+            Op::OpenWrite { h: 0, p: s.clone() },
+            Op::OpenAppend { h: 0, p: s.clone() },
+            Op::Expand { p: s.clone() },
+        ];
+        for f in [
+            "trim_prefix", "trim_suffix", "trim_ext", "trim_first", "trim_last", "trim_protocol", "mash", "relative", "clean", "expand", "base", "dir", "name", "ext",
+            "first", "last", "concat", "has", "parse_paths", "str_ext",
+        ] {
+            calls.push(Op::PathFn { f: f.into(), a: s.clone(), b: "/d".into() });
+            calls.push(Op::PathFn { f: f.into(), a: "/d/f.x".into(), b: s.clone() });
+            calls.push(Op::PathFn { f: f.into(), a: s.clone(), b: s.clone() });
+        }
+        for call in calls {
+            let cwd = if rng.chance(1, 2) { "/d" } else { "/" };
+            let mut ops = vec![
+                Op::MkdirP { p: "/d/e".into() },
+                Op::WriteAll { p: "/d/f".into(), d: Bytes(b"one\ntwo".to_vec()) },
+                Op::Symlink { l: "/d/l".into(), t: "/d/e".into() },
+                Op::SetCwd { p: cwd.into() },
+            ];
+            let opened = matches!(call, Op::OpenRead { .. } | Op::OpenWrite { .. } | Op::OpenAppend { .. });
+            ops.push(call);
+            if opened {
+                ops.push(Op::HWrite { h: 0, d: Bytes(b"y".to_vec()) });
+                ops.push(Op::HReadToEnd { h: 0 });
+                ops.push(Op::HDrop { h: 0 });
+            }
+            ops.push(Op::AllPaths { p: "/".into() });
+            stats.bump("sweep.short_string_x_method_elements");
+            if let Some(f) = run_little_history(id, &pc, &knobs, &env, &ops, seed, idx, stats, known) {
+                return Some(f);
+            }
+        }
+        stats.bump("sweep.short_strings_walked");
+    }
+    None
+}
+
+/// C05's quantifier: strings over {separator, dot, '~', '$', ':', a letter, a multi-byte character}
+/// "up to a length bound (exhaustive)", for all cwd values of a bounded tree and several HOME
+/// values. Every 128th run takes the next 16 strings of the enumeration up to length 5 and judges
+/// abs(s) and one other method called with s against the reference resolver / the canonical twin
+/// under every (cwd, HOME) pair; the thorough tier walks the whole enumeration.
+fn c05_sweep(id: &str, seed: u64, idx: u64, stats: &mut Stats, known: &dyn Fn(&Violation) -> bool) -> Option<Finding> {
+    use crate::ops::{Bytes, Op};
+    let pc = props::seq_cfg(id)?;
+    let mut rng = Rng::new(mix(&[seed, hash_str("C05-sweep"), idx]));
+    let knobs = pick_knobs(&mut rng);
+    let alpha = ['/', '.', '~', '$', ':', 'a', '\u{e9}'];
+    let total = strings_up_to(&alpha, 5);
+    for j in 0..16u64 {
+        let k = ((idx / 128) * 16 + j) % total;
+        let s = nth_string(&alpha, k);
+        for home in [None, Some("/"), Some("/a"), Some("/a/b")] {
+            for cwd in ["/", "/a", "/a/b"] {
+                let mut env = crate::refpath::Env::new();
+                if let Some(h) = home {
+                    env.insert("HOME".into(), h.into());
+                }
+                env.insert("a".into(), "a/b".into());
+                let other = match rng.below(6) {
+                    0 => Op::MkdirP { p: s.clone() },
+                    1 => Op::WriteAll { p: s.clone(), d: Bytes(b"w".to_vec()) },
+                    2 => Op::Exists { p: s.clone() },
+                    3 => Op::Symlink { l: s.clone(), t: "/a".into() },
+                    4 => Op::Paths { p: s.clone() },
+                    _ => Op::Remove { p: s.clone() },
+                };
+                let ops = vec![
+                    Op::MkdirP { p: "/a/b".into() },
+                    Op::WriteAll { p: "/a/f".into(), d: Bytes(b"f".to_vec()) },
+                    Op::SetCwd { p: cwd.into() },
+                    Op::Abs { p: s.clone() },
+                    other,
+                    Op::Abs { p: s.clone() },
+                ];
+                stats.bump("sweep.string_x_cwd_x_home_elements");
+                if let Some(f) = run_little_history(id, &pc, &knobs, &env, &ops, seed, idx, stats, known) {
+                    return Some(f);
+                }
+            }
+        }
+        stats.bump("sweep.short_strings_walked");
+    }
+    None
+}
+
 /// Dispatch one run of any world
 pub fn run_index(id: &str, tier: &str, seed: u64, idx: u64, stats: &mut Stats, known: &dyn Fn(&Violation) -> bool) -> Option<Finding> {
     if id == "C03" && idx % 8 == 7 {
@@ -390,6 +701,15 @@ pub fn run_index(id: &str, tier: &str, seed: u64, idx: u64, stats: &mut Stats, k
     if (id == "C13" || id == "C05") && idx % 16 == 9 {
         // the real backend's side of the property: two sibling sandboxes
         return diffw::twin_index(id, tier, seed, idx, stats, known);
+    }
+    if id == "C12" && idx % 128 == 19 {
+        return c12_sweep(id, seed, idx, stats, known);
+    }
+    if id == "C05" && idx % 128 == 19 {
+        return c05_sweep(id, seed, idx, stats, known);
+    }
+    if id == "C11" && idx % 128 == 11 {
+        return c11_sweep(id, seed, idx, stats, known);
     }
     if id == "C09" && idx % 16 == 13 {
         // the real backend alone on trees with indirect links (outside the comparison domain)
